@@ -2349,19 +2349,14 @@ m("C06", "reference-conversion-unguarded", "utils.py",
 
 # ---- repairs of round 7 (8f51479, ff91a87, d98e763, 4ec1f7d) ------------------
 m("C15", "class-by-plain-name", "template.py",
-  '''        class_name = "{}.{}".format(
-            cls.__module__, cls.__qualname__).encode('utf-8')''',
-  '''        class_name = cls.__name__.encode('utf-8')''')
+  '''        qualified = "{}.{}".format(cls.__module__, cls.__qualname__)''',
+  '''        qualified = cls.__name__''')
 m("C15", "class-module-and-plain-name", "template.py",
-  '''        class_name = "{}.{}".format(
-            cls.__module__, cls.__qualname__).encode('utf-8')''',
-  '''        class_name = "{}.{}".format(
-            cls.__module__, cls.__name__).encode('utf-8')''')
+  '''        qualified = "{}.{}".format(cls.__module__, cls.__qualname__)''',
+  '''        qualified = "{}.{}".format(cls.__module__, cls.__name__)''')
 m("C15", "refactor-class-key-percent", "template.py",
-  '''        class_name = "{}.{}".format(
-            cls.__module__, cls.__qualname__).encode('utf-8')''',
-  '''        class_name = ("%s.%s" % (
-            cls.__module__, cls.__qualname__)).encode('utf-8')''',
+  '''        qualified = "{}.{}".format(cls.__module__, cls.__qualname__)''',
+  '''        qualified = "%s.%s" % (cls.__module__, cls.__qualname__)''',
   expect="silent")
 m("C18", "xmlns-takes-element-namespace", "parser.py",
   '''        elif name == 'xmlns':
@@ -2563,3 +2558,37 @@ m("C10", "refactor-name-join-local", C,
         body.append(ast.Try(body=[block], handlers=[], orelse=[],
                             finalbody=join))
 """, expect="silent")
+
+
+# ---- fix 10c9a51: carriage returns of a multi-line expression
+for _p in ("C20", "C11", "C04", "C06"):
+    m(_p, "python-cr-kept", "tales.py",
+      "string = string.replace('\\n', ' ').replace('\\r', ' ')",
+      "string = string.replace('\\n', ' ')")
+    m(_p, "refactor-python-line-ends-two-steps", "tales.py",
+      "string = string.replace('\\n', ' ').replace('\\r', ' ')",
+      "string = string.replace('\\r', ' ')\n        string = string.replace('\\n', ' ')",
+      expect="silent")
+m("C20", "python-all-space-collapsed", "tales.py",
+  "string = string.replace('\\n', ' ').replace('\\r', ' ')",
+  "string = ' '.join(string.split())")
+
+# ---- fix e1d2cab: the debug comment quotes the file name
+m("C15", "debug-comment-raw", "template.py",
+  """                    source = "# template: {!r}\\n#\\n{}".format(
+                        str(self.filename), source)""",
+  """                    source = "# template: {}\\n#\\n{}".format(
+                        str(self.filename), source)""")
+m("C15", "refactor-debug-comment-percent", "template.py",
+  """                    source = "# template: {!r}\\n#\\n{}".format(
+                        str(self.filename), source)""",
+  """                    source = "# template: %r\\n#\\n%s" % (
+                        str(self.filename), source)""", expect="silent")
+
+# ---- fix ca97ef9: identity of a template class made inside a function
+m("C15", "local-class-without-identity", "template.py",
+  """            qualified = "{}@{:x}".format(qualified, id(cls))""",
+  """            qualified = "{}@local".format(qualified)""")
+m("C15", "class-name-dropped-from-key", "template.py",
+  """        class_name = qualified.encode('utf-8')""",
+  """        class_name = b'template'""")
